@@ -148,13 +148,21 @@ KANI_DIR = os.path.join(VERIF, 'kani')
 
 
 def kani_prepare():
-    shutil.copyfile(os.path.join(REPO, 'Cargo.lock'), os.path.join(KANI_DIR, 'Cargo.lock.repo'))
+    # the harness crate resolves exactly the dependency versions the repository pins (offline)
+    lock = os.path.join(KANI_DIR, 'Cargo.lock')
+    if not os.path.exists(lock):
+        shutil.copyfile(os.path.join(REPO, 'Cargo.lock'), lock)
+    tmpl = os.path.join(KANI_DIR, 'Cargo.toml.in')
+    if os.path.exists(tmpl):
+        txt = open(tmpl).read().replace('@REPO@', REPO)
+        cur = os.path.join(KANI_DIR, 'Cargo.toml')
+        if not os.path.exists(cur) or open(cur).read() != txt:
+            open(cur, 'w').write(txt)
 
 
 def kani_harness(name, timeout, extra=()):
     env = dict(ENV)
-    env['RUSTFLAGS'] = (env.get('RUSTFLAGS', '') + ' --cfg asn1rs_verif').strip()
-    cmd = ['cargo', 'kani', '-Z', 'function-contracts', '-Z', 'stubbing', '--harness', name, '--output-format', 'terse'] + list(extra)
+    cmd = ['cargo', 'kani', '--harness', name, '--output-format', 'terse'] + list(extra)
     rc, out, err, wall = sh(cmd, timeout=timeout, cwd=KANI_DIR, env=env)
     txt = out + '\n' + err
     res = {'harness': name, 'cmd': ' '.join(cmd), 'wall_s': round(wall, 1), 'rc': rc}
@@ -489,6 +497,14 @@ def main():
     elif a.cmd == 'replay':
         sys.exit(replay(a.arg))
     elif a.cmd == 'setup':
+        # warm the build caches (replay binary, Kani compilation of the real crate); failures here are not fatal
+        try:
+            replay_build()
+        except Undecided as ex:
+            print('setup: %s' % ex)
+        kani_prepare()
+        r = kani_harness('tag_order', 900)
+        print('setup: kani warm-up %s' % r['status'])
         sys.exit(0)
     else:
         print('unknown command')
